@@ -129,27 +129,39 @@ func numbers[N int64 | float64](p *point, sum N, mn, mx metricdata.Extrema[N]) {
 	}
 }
 
+// extractMetric copies the data points of one metric; expo tells which kind
+// of histogram it is.
+func extractMetric[N int64 | float64](m metricdata.Metrics) (pts []point, expo bool, problem string) {
+	switch d := m.Data.(type) {
+	case metricdata.Histogram[N]:
+		for _, dp := range d.DataPoints {
+			p := point{set: setOf(dp.Attributes), count: dp.Count,
+				bounds: append([]float64{}, dp.Bounds...), counts: append([]uint64{}, dp.BucketCounts...)}
+			numbers(&p, dp.Sum, dp.Min, dp.Max)
+			pts = append(pts, p)
+		}
+	case metricdata.ExponentialHistogram[N]:
+		expo = true
+		for _, dp := range d.DataPoints {
+			p := point{set: setOf(dp.Attributes), count: dp.Count, scale: dp.Scale, zero: dp.ZeroCount,
+				posOff: dp.PositiveBucket.Offset, negOff: dp.NegativeBucket.Offset,
+				pos: append([]uint64{}, dp.PositiveBucket.Counts...), neg: append([]uint64{}, dp.NegativeBucket.Counts...)}
+			numbers(&p, dp.Sum, dp.Min, dp.Max)
+			pts = append(pts, p)
+		}
+	default:
+		problem = fmt.Sprintf("metric %q has data of type %T", m.Name, m.Data)
+	}
+	return pts, expo, problem
+}
+
 func extract[N int64 | float64](rm *metricdata.ResourceMetrics) (pts []point, problems []string) {
 	for _, sm := range rm.ScopeMetrics {
 		for _, m := range sm.Metrics {
-			switch d := m.Data.(type) {
-			case metricdata.Histogram[N]:
-				for _, dp := range d.DataPoints {
-					p := point{set: setOf(dp.Attributes), count: dp.Count,
-						bounds: append([]float64{}, dp.Bounds...), counts: append([]uint64{}, dp.BucketCounts...)}
-					numbers(&p, dp.Sum, dp.Min, dp.Max)
-					pts = append(pts, p)
-				}
-			case metricdata.ExponentialHistogram[N]:
-				for _, dp := range d.DataPoints {
-					p := point{set: setOf(dp.Attributes), count: dp.Count, scale: dp.Scale, zero: dp.ZeroCount,
-						posOff: dp.PositiveBucket.Offset, negOff: dp.NegativeBucket.Offset,
-						pos: append([]uint64{}, dp.PositiveBucket.Counts...), neg: append([]uint64{}, dp.NegativeBucket.Counts...)}
-					numbers(&p, dp.Sum, dp.Min, dp.Max)
-					pts = append(pts, p)
-				}
-			default:
-				problems = append(problems, fmt.Sprintf("metric %q has data of type %T", m.Name, m.Data))
+			ps, _, problem := extractMetric[N](m)
+			pts = append(pts, ps...)
+			if problem != "" {
+				problems = append(problems, problem)
 			}
 		}
 	}
@@ -191,6 +203,21 @@ func fitsAtMinScale(kept []mv, v float64, maxSize int32) bool {
 		lo, hi = min(lo, i), max(hi, i)
 	}
 	return hi-lo+1 <= int64(maxSize)
+}
+
+// instCfg is what the oracle needs to know about one histogram instrument.
+type instCfg struct {
+	Expo, Int         bool
+	Bounds            []float64 // explicit: the configured boundaries, increasing
+	MaxSize, MaxScale int32     // exponential
+}
+
+func (c Case) cfg() instCfg {
+	k := instCfg{Expo: c.Expo, Int: c.Int, MaxSize: c.MaxSize, MaxScale: c.MaxScale}
+	for _, b := range c.Bounds {
+		k.Bounds = append(k.Bounds, float64(b))
+	}
+	return k
 }
 
 type runner struct {
@@ -383,42 +410,50 @@ func (r *runner) exec() {
 	}
 }
 
-func (r *runner) show(m mv) string {
-	if r.c.Int {
+func (r *runner) show(m mv) string { return showMV(r.c.Int, m) }
+
+func showMV(isInt bool, m mv) string {
+	if isInt {
 		return fmt.Sprintf("%d", m.i)
 	}
 	return fmt.Sprintf("%v(0x%016x)", m.f, math.Float64bits(m.f))
 }
 
 func (r *runner) checkCollection(n int, pts []point) {
+	r.checkPoints(fmt.Sprintf("collect #%d", n), r.c.cfg(), r.c.Cumulative, &r.sets, pts)
+}
+
+// checkPoints compares the data points one instrument reported in one
+// collection with what the model says its attribute sets hold.
+func (r *runner) checkPoints(at string, cfg instCfg, cum bool, sets *[2]setModel, pts []point) {
 	seen := [2]bool{}
 	for i := range pts {
 		p := &pts[i]
-		where := fmt.Sprintf("collect #%d set %d", n, p.set)
+		where := fmt.Sprintf("%s set %d", at, p.set)
 		if p.set < 0 || p.set > 1 || seen[p.set] {
 			r.bad("unexpected_point", "%s: duplicate or unknown data point", where)
 			continue
 		}
 		seen[p.set] = true
-		sm := &r.sets[p.set]
+		sm := &sets[p.set]
 		if uint64(len(sm.kept)) != p.count {
 			r.bad("count", "%s: Count = %d, measurements recorded = %d", where, p.count, len(sm.kept))
 		}
-		if r.c.Expo {
-			r.checkExpo(where, p, sm)
+		if cfg.Expo {
+			r.checkExpo(where, cfg, cum, p, sm)
 		} else {
-			r.checkExplicit(where, p, sm)
+			r.checkExplicit(where, cfg, p, sm)
 		}
 		if len(sm.kept) == 0 {
 			r.emptyPoint = true
 		} else {
 			r.nonEmptyPoints++
-			r.checkNumbers(where, p, sm.kept)
+			r.checkNumbers(where, cfg.Int, p, sm.kept)
 		}
 	}
-	for s := range r.sets {
-		if !seen[s] && len(r.sets[s].kept) > 0 {
-			r.bad("missing_point", "collect #%d: no data point for set %d which holds %d measurements", n, s, len(r.sets[s].kept))
+	for s := range sets {
+		if !seen[s] && len(sets[s].kept) > 0 {
+			r.bad("missing_point", "%s: no data point for set %d which holds %d measurements", at, s, len(sets[s].kept))
 		}
 	}
 }
@@ -430,14 +465,13 @@ func total(cs []uint64) (t uint64) {
 	return t
 }
 
-func (r *runner) checkExplicit(where string, p *point, sm *setModel) {
-	c := r.c
+func (r *runner) checkExplicit(where string, c instCfg, p *point, sm *setModel) {
 	if len(p.counts) != len(p.bounds)+1 {
 		r.bad("explicit_len", "%s: %d bucket counts for %d bounds", where, len(p.counts), len(p.bounds))
 	}
 	same := len(p.bounds) == len(c.Bounds)
 	for i := 0; same && i < len(p.bounds); i++ {
-		same = p.bounds[i] == float64(c.Bounds[i])
+		same = p.bounds[i] == c.Bounds[i]
 	}
 	if !same {
 		r.bad("explicit_bounds", "%s: reported bounds %v, configured %v", where, p.bounds, c.Bounds)
@@ -473,8 +507,7 @@ func (r *runner) checkExplicit(where string, p *point, sm *setModel) {
 	}
 }
 
-func (r *runner) checkExpo(where string, p *point, sm *setModel) {
-	c := r.c
+func (r *runner) checkExpo(where string, c instCfg, cum bool, p *point, sm *setModel) {
 	if t := p.zero + total(p.pos) + total(p.neg); t != p.count {
 		r.bad("expo_count_ne_buckets", "%s: Count = %d, ZeroCount %d + positive %d + negative %d = %d", where, p.count, p.zero, total(p.pos), total(p.neg), t)
 	}
@@ -485,7 +518,7 @@ func (r *runner) checkExpo(where string, p *point, sm *setModel) {
 	if !scaleOK {
 		r.bad("expo_scale_range", "%s: Scale = %d, allowed [-10, %d]", where, p.scale, c.MaxScale)
 	}
-	if c.Cumulative {
+	if cum {
 		if sm.haveScale && p.scale > sm.lastScale {
 			r.bad("expo_scale_increased", "%s: Scale went from %d to %d between cumulative collections", where, sm.lastScale, p.scale)
 		}
@@ -581,11 +614,11 @@ func (r *runner) compareSide(where, side string, scale int32, reported map[int64
 	r.bad("expo_bucket_mismatch", "%s: %s buckets at scale %d: reported %v, reference %v; values in differing buckets: %v", where, side, scale, reported, want, diff)
 }
 
-func (r *runner) checkNumbers(where string, p *point, kept []mv) {
+func (r *runner) checkNumbers(where string, isInt bool, p *point, kept []mv) {
 	if !p.hasMn || !p.hasMx {
 		r.bad("minmax_missing", "%s: Min/Max not reported (NoMinMax is false)", where)
 	}
-	if r.c.Int {
+	if isInt {
 		mn, mx, sum := kept[0].i, kept[0].i, int64(0)
 		for _, m := range kept {
 			mn, mx = min(mn, m.i), max(mx, m.i)
